@@ -124,6 +124,8 @@ pub trait Payload: Send + Sized + 'static {
     const NAME: &'static str;
     const DROPPABLE: bool;
     const ZST: bool = false;
+    /// the destructor re-enters the channel
+    const REENTRANT: bool = false;
     fn make(id: u32) -> Self;
     /// identity claimed by the bytes
     fn id(&self) -> u32;
@@ -367,6 +369,49 @@ impl Payload for PA64 {
     }
 }
 drop_impl!(PA64);
+
+/// What a re-entrant payload does in its destructor (installed per execution by the
+/// interpreter: `len()` on some live handle of the channel under test).
+pub static REENTRY: Mutex<Option<std::sync::Arc<dyn Fn() + Send + Sync>>> = Mutex::new(None);
+
+/// A message whose destructor touches the channel it travels through (think of a message
+/// that owns a handle of its own channel).  Only destructions performed by the library
+/// re-enter, and not while the destroying thread runs with everybody else suspended.
+pub struct PH {
+    id: u32,
+    b: [u8; 12],
+}
+impl Payload for PH {
+    const NAME: &'static str = "PH";
+    const DROPPABLE: bool = true;
+    const REENTRANT: bool = true;
+    fn make(id: u32) -> Self {
+        let mut b = [0u8; 12];
+        for (i, x) in b.iter_mut().enumerate() {
+            *x = mix(id, i as u32) as u8;
+        }
+        PH { id, b }
+    }
+    fn id(&self) -> u32 {
+        self.id
+    }
+    fn verify(&self) -> bool {
+        (0..12).all(|i| self.b[i] == mix(self.id, i as u32) as u8)
+    }
+}
+impl Drop for PH {
+    fn drop(&mut self) {
+        record_drop(Payload::id(self));
+        let harness = HARNESS_DROP.with(|h| h.get());
+        if !harness && rt::vid() != u32::MAX as usize && !rt::is_alone() {
+            // never hold the host mutex across a scheduling point
+            let f = REENTRY.lock().unwrap_or_else(|e| e.into_inner()).clone();
+            if let Some(f) = f {
+                f();
+            }
+        }
+    }
+}
 
 /// Heap-owning payload (fuzz / Miri tiers): a double drop is a double free.
 pub struct PB(Box<[u8; 24]>, u32);
